@@ -37,6 +37,13 @@ def directed():
          D(b"web", [h, g], [(b"ta:80", True), (b"tb:80", True)]), D(b"web", [g], [(b"ta:80", True), (b"tb:80", True)]),
          dict(D(b"web", [h], [(b"ta:80", True), (b"tb:80", True)]), pages="bad"), rd(b"web", [(b"tc:8080", True)]),
          D(b"web", [h, g], [(b"ta:80", True), (b"tb:80", True)]), rd(b"web", [(b"tc:8080", True), (b"tx_1:80", False)])],
+        # failing redeploys that keep the service options and change only the TARGET options (health path, buffering, timeouts):
+        # the live service keeps the target options it had - seen at the next snapshot, after a restart, and by a rollout deploy
+        # (whose targets get the service's target options)
+        [D(b"web", [h], [(b"ta:80", True)]), dict(D(b"web", [h], [(b"tx_1:80", False)]), topts=1), {"op": "pause", "name": b"web", "fail_after": 1000000000},
+         {"op": "resume", "name": b"web"}, dict(D(b"web", [h], [(b"ty_1:80", False), (b"tb:80", True)]), topts=2),
+         rd(b"web", [(b"tc:8080", True)]), {"op": "restart"}, dict(D(b"web", [h], [(b"tz_1:80", False)]), topts=1), {"op": "restart"},
+         dict(D(b"web", [h], [(b"td:80", True)]), topts=1)],
     ]
 
 
